@@ -42,6 +42,13 @@ static struct cstr afsp_directory_prefix(char directory)
 __CPROVER_assigns()
 __CPROVER_ensures(__CPROVER_return_value.n == 2 && __CPROVER_return_value.d[0] == directory && __CPROVER_return_value.d[1] == '.');
 
+/* VolumeSelector::operator= (C15: an explicit ":0." replaces the whole --drive default, volume letter included) */
+#include "VolumeSelector_assign.inc"
+static void VolumeSelector_assign(struct VolumeSelectorM *self, const struct VolumeSelectorM *v)
+__CPROVER_requires(__CPROVER_is_fresh(self, sizeof(*self)) && __CPROVER_is_fresh(v, sizeof(*v)))
+__CPROVER_assigns(*self)
+__CPROVER_ensures(self->surface_ == v->surface_ && self->subvolume_.has == v->subvolume_.has && (v->subvolume_.has ==> self->subvolume_.val == v->subvolume_.val));
+void h_vol_assign(void) { struct VolumeSelectorM *a; const struct VolumeSelectorM *b; VolumeSelector_assign(a, b); }
 void h_vol_to_string(void) { const struct VolumeSelectorM *v; g_k = nondet_size_t(); __CPROVER_assume(g_k < 10); VolumeSelector_to_string(v); }
 void h_drive_prefix(void) { const struct VolumeSelectorM *v; g_k = nondet_size_t(); __CPROVER_assume(g_k < 10); afsp_drive_prefix(v); }
 void h_directory_prefix(void) { afsp_directory_prefix(nondet_char()); }
